@@ -179,6 +179,11 @@ def do_replay(prop: str, path: str) -> int:
         from .props import persist
         persist.replay(case)
         return 0
+    if "restored_registry" in case:
+        # C10: a registry restored from a persistence file by `async with gateway`, then received lines
+        from .props import gateway as gprops
+        gprops.replay_c10_restored(case)
+        return 0
     if "history" in case:
         from . import gw
         h = gw.Hist.from_json(case["history"])
